@@ -272,6 +272,9 @@ func runR03_8(c *Ctx, r *R) {
 		}
 		return ""
 	}
+	ctor := func(name string) bool {
+		return name == "newChannelState" || name == "openChannelState" || name == "reset" || name == "init"
+	}
 	// where is each field assigned?
 	assignedIn := map[*types.Var][]string{}
 	for _, f := range mpxSrc(c) {
@@ -288,11 +291,13 @@ func runR03_8(c *Ctx, r *R) {
 			for root.Parent() != nil {
 				root = root.Parent()
 			}
-			assignedIn[fieldOf(fa)] = append(assignedIn[fieldOf(fa)], root.Name())
+			name := root.Name()
+			// a helper that only constructors / reset call is part of them (freeContext called by reset)
+			if !ctor(name) && onlyCalledFrom(root, ctor, 0) {
+				name = "reset"
+			}
+			assignedIn[fieldOf(fa)] = append(assignedIn[fieldOf(fa)], name)
 		})
-	}
-	ctor := func(name string) bool {
-		return name == "newChannelState" || name == "openChannelState" || name == "reset" || name == "init"
 	}
 	for i := 0; i < st.NumFields(); i++ {
 		f := st.Field(i)
@@ -509,4 +514,28 @@ func runR19_9(c *Ctx, r *R) {
 	if n == 0 {
 		r.Unk(fnKey(f)+"/slot", f.Pos(), "no return found")
 	}
+}
+
+// onlyCalledFrom: every static caller of unexported fn (two levels) satisfies ok, and fn does not escape as a value.
+func onlyCalledFrom(fn *ssa.Function, ok func(name string) bool, depth int) bool {
+	if fn.Parent() != nil || token.IsExported(fn.Name()) || depth >= 2 {
+		return false
+	}
+	sites, escapes := sitesOf(fn)
+	if escapes || len(sites) == 0 {
+		return false
+	}
+	for _, s := range sites {
+		caller := s.Parent()
+		for caller.Parent() != nil {
+			caller = caller.Parent()
+		}
+		if ok(caller.Name()) {
+			continue
+		}
+		if !onlyCalledFrom(caller, ok, depth+1) {
+			return false
+		}
+	}
+	return true
 }
